@@ -179,7 +179,7 @@ def check(chk):
             cur = [a.targets[0].id for a in body_walk(bodyfn) if isinstance(a, ast.Assign) and isinstance(a.targets[0], ast.Name)
                    and isinstance(a.value, ast.Call) and src(a.value.func) == 'eventlet.getcurrent']
             kills = [(nd, c) for nd in gb.stmt_nodes() if nd.kind == 'stmt' and nd.ast is not None for c in walk_no_nested(nd.ast)
-                     if isinstance(c, ast.Call) and isinstance(c.func, ast.Attribute) and c.func.attr == 'kill' and src(c.func.value).startswith('self._')]
+                     if isinstance(c, ast.Call) and isinstance(c.func, ast.Attribute) and c.func.attr == 'kill']
             if not kills:
                 raise AnalysisError('EventletConnection.close: watcher kill() calls not found')
             for nd, c in kills:
